@@ -52,7 +52,7 @@ class Net(object):
       self.dead.add(dpid)
     return sw
 
-  def connect(self, dpid):
+  def connect(self, dpid, revive=True):
     """(Re)connect a switch: a fresh control channel for the same datapath (its flow table and port
     configuration survive, as on a real switch); whatever it wrote while disconnected is lost."""
     from . import world as W
@@ -66,7 +66,8 @@ class Net(object):
     sw.sw.set_connection(sw.conn)
     link = self.world.attach(sw)
     sw.link = link
-    self.dead.discard(dpid)
+    if revive:
+      self.dead.discard(dpid)        # (revive=False: the control channel comes up, the data plane stays dead)
     if not link.handshake():
       raise HarnessError("switch %x did not come up" % dpid)
     return link
